@@ -200,3 +200,112 @@ func tf(b bool) string {
 type constantValue = constant.Value
 
 func boolConst(b bool) constant.Value { return constant.MakeBool(b) }
+
+// membershipTable: f(x) is `for _, k := range G { if k == x { return true } }; return false` over a package-level
+// slice literal G of constants (never written outside init). Returns the members.
+func (c *Ctx) membershipTable(f *ssa.Function) ([]int64, bool) {
+	if f == nil || len(f.Params) != 1 || len(f.Blocks) == 0 || f.Signature.Results().Len() != 1 || !isBoolType(f.Signature.Results().At(0).Type()) {
+		return nil, false
+	}
+	if len(naturalLoops(f)) != 1 {
+		return nil, false
+	}
+	var g *ssa.Global
+	okShape := true
+	nTrue, nFalse := 0, 0
+	instrs(f, func(b *ssa.BasicBlock, i int, in ssa.Instruction) {
+		switch x := in.(type) {
+		case *ssa.UnOp:
+			if gl, ok := x.X.(*ssa.Global); ok {
+				if g != nil && g != gl {
+					okShape = false
+				}
+				g = gl
+			}
+		case *ssa.Call:
+			if !isBuiltinCall(x, "len") {
+				okShape = false
+			}
+		case *ssa.BinOp:
+			if x.Op == token.EQL {
+				// element == param
+				if x.X != ssa.Value(f.Params[0]) && x.Y != ssa.Value(f.Params[0]) {
+					okShape = false
+				}
+			}
+		case *ssa.Return:
+			if k, ok := constBoolArg(x.Results[0]); ok {
+				if k {
+					nTrue++
+				} else {
+					nFalse++
+				}
+			} else {
+				okShape = false
+			}
+		case *ssa.Store, *ssa.MapUpdate, *ssa.Go, *ssa.Defer:
+			okShape = false
+		}
+	})
+	if !okShape || g == nil || nTrue != 1 || nFalse != 1 || g.Pkg != c.P.Pkg {
+		return nil, false
+	}
+	// G is written nowhere outside the package initialiser
+	for _, h := range c.P.ModFuncs {
+		if isInitFn(h) {
+			continue
+		}
+		for _, gw := range c.globalWritesIn(h) {
+			if gw.Global == g.Name() {
+				return nil, false
+			}
+		}
+	}
+	vals, _ := c.sliceLiteralInts(g.Name())
+	if vals == nil {
+		return nil, false
+	}
+	return vals, true
+}
+
+// pinMembership resolves calls of constant-table membership functions whose argument the other pins determine.
+func (c *Ctx) pinMembership(base func(v ssa.Value) (constant.Value, bool)) Pin {
+	cache := map[*ssa.Function][]int64{}
+	known := map[*ssa.Function]bool{}
+	return func(v ssa.Value) (constant.Value, bool) {
+		call, ok := v.(*ssa.Call)
+		if !ok || len(call.Call.Args) != 1 {
+			return nil, false
+		}
+		f := calleeOf(call)
+		if f == nil || !c.inModule(f) {
+			return nil, false
+		}
+		if !known[f] {
+			known[f] = true
+			if vals, ok := c.membershipTable(f); ok {
+				cache[f] = vals
+			}
+		}
+		vals, ok := cache[f]
+		if !ok {
+			return nil, false
+		}
+		av, ok := base(call.Call.Args[0])
+		if !ok {
+			if k, isK := constIntArg(call.Call.Args[0]); isK {
+				av, ok = constant.MakeInt64(k), true
+			}
+		}
+		if !ok || av.Kind() != constant.Int {
+			return nil, false
+		}
+		n, _ := constant.Int64Val(av)
+		for _, m := range vals {
+			if m == n {
+				return constant.MakeBool(true), true
+			}
+		}
+		return constant.MakeBool(false), true
+	}
+}
